@@ -1026,7 +1026,7 @@ class Machine:
 
     def dom_snap(self, di):
         m = self.doms[di]['model']
-        return ['finite', [repr(v) for v in m[1]]] if m[0] == 'finite' else ['range', m[1]]
+        return ['finite', [M.vkey(v) for v in m[1]]] if m[0] == 'finite' else ['range', m[1]]
 
     def op_add_domain(self, a, before):
         oi = self.pick_obj(a[0], ('FactorGraph', 'FGG'))
